@@ -3,6 +3,7 @@
 set -u
 ID="$1"; WT="${2:-/tmp/seed_$ID}"; NAME="${3:-$ID}"
 OUT=/verif/seeded/$NAME; mkdir -p "$OUT"
+FEAT=${SEED_FEATURES:+--features $SEED_FEATURES}
 cd "$WT" || exit 2
 cp _deliver/patch.diff _deliver/meta.json "$OUT/" 2>/dev/null
 cp _deliver/seeded_demo.rs "$OUT/" 2>/dev/null
@@ -10,13 +11,13 @@ LOG="$OUT/confirm.log"; : > "$LOG"
 git checkout -q -- src; git apply _deliver/patch.diff || { echo "patch does not apply" >> "$LOG"; exit 2; }
 cp _deliver/seeded_demo.rs tests/seeded_demo.rs
 echo "== demo with change (expect FAIL)" >> "$LOG"
-cargo test --offline -p redb@4.2.0 --test seeded_demo >> "$LOG.demo1" 2>&1; echo "exit=$?" >> "$LOG"; tail -5 "$LOG.demo1" >> "$LOG"
+cargo test --offline -p redb@4.2.0 $FEAT --test seeded_demo >> "$LOG.demo1" 2>&1; echo "exit=$?" >> "$LOG"; tail -5 "$LOG.demo1" >> "$LOG"
 mv tests/seeded_demo.rs /tmp/seeded_demo_$NAME.rs
 echo "== suite with change (expect PASS)" >> "$LOG"
-cargo nextest run --offline -p redb@4.2.0 --test-threads 8 --no-fail-fast > "$LOG.suite" 2>&1; echo "exit=$?" >> "$LOG"; grep -E "Summary|FAIL" "$LOG.suite" | head -5 >> "$LOG"
+cargo nextest run --offline -p redb@4.2.0 $FEAT --test-threads 8 --no-fail-fast > "$LOG.suite" 2>&1; echo "exit=$?" >> "$LOG"; grep -E "Summary|FAIL" "$LOG.suite" | head -5 >> "$LOG"
 git checkout -q -- src
 mv /tmp/seeded_demo_$NAME.rs tests/seeded_demo.rs
 echo "== demo without change (expect PASS)" >> "$LOG"
-cargo test --offline -p redb@4.2.0 --test seeded_demo >> "$LOG.demo2" 2>&1; echo "exit=$?" >> "$LOG"; tail -3 "$LOG.demo2" >> "$LOG"
+cargo test --offline -p redb@4.2.0 $FEAT --test seeded_demo >> "$LOG.demo2" 2>&1; echo "exit=$?" >> "$LOG"; tail -3 "$LOG.demo2" >> "$LOG"
 rm -f "$LOG.demo1" "$LOG.demo2" "$LOG.suite"
 cat "$LOG"
